@@ -218,6 +218,37 @@ def rule_total_errors(ctx, rid="R17.4"):
     return r
 
 
+def rule_construction_effects(ctx, rid="R17.1b"):
+    """The kind interpreter on ErrorTree.__init__ with any list of errors (paths of strings/ints, any JSON instance): the escape
+    set must be empty.  total_errors/len/iteration likewise."""
+    from ..interp import Interp, obj
+    from ..kinds import AV
+    from .c03 import run_entry
+    prog = ctx.prog
+    r = ctx.rule(rid, "abstract interpretation: constructing an ErrorTree from any errors, and counting it, raises nothing", floor=3)
+    I = Interp(prog, "draft7")
+    errs = AV(["list"], elem=AV(["err"]))
+    for q, args in (("exceptions.ErrorTree.__init__", [obj("ErrorTree"), errs]),
+                    ("exceptions.ErrorTree.total_errors", [obj("ErrorTree")]),
+                    ("exceptions.ErrorTree.__len__", [obj("ErrorTree")]),
+                    ("exceptions.ErrorTree.__contains__", [obj("ErrorTree"), AV(["str", "int"])]),
+                    ("exceptions.ErrorTree.__iter__", [obj("ErrorTree")])):
+        f = prog.func(q)
+        eff = run_entry(I, f, args)
+        found = {}
+        for x in eff:
+            found.setdefault(x.key(), x)
+        if not found:
+            r.ok(site(f), "escape set empty")
+        else:
+            r.pending(site(f), "escapes %s" % sorted({x.exc for x in found.values()}))
+        for key, x in sorted(found.items()):
+            r.findings.append({"rule": r.id, "key": "%s|%s" % (r.id, key), "site": site(x.func, x.node),
+                               "msg": "%s can escape %s: %s%s" % (x.exc, f.name, x.op, (" -- operand %s" % x.operand) if x.operand else ""),
+                               "detail": {"call_chain": " <- ".join(reversed(x.chain)) if x.chain else ""}})
+    return r
+
+
 def run(ctx):
     ctx.explanation = (
         "C17 structural clauses: R17.1 call-graph reachability from ErrorTree.__init__ to a subscript on the recorded instance "
@@ -226,6 +257,7 @@ def run(ctx):
         "and on every child. Not decided: concrete counts.")
     ctx.assume("collections.defaultdict creates a child on first access")
     rule_construction_total(ctx)
+    rule_construction_effects(ctx)
     rule_filed_by_path(ctx)
     rule_accessors_agree(ctx)
     rule_total_errors(ctx)
